@@ -1,9 +1,62 @@
 import SpVerif.Model.Parquet
 import SpVerif.Generated.Registry
+import Mathlib.Data.List.Nodup
+/-!
+# C11 — parquet round trips are lossless
+
+What spatialpandas itself contributes to a round trip is small: the dtype *name* written into the pandas metadata and parsed
+back through pandas' extension-dtype registry (this is how kind and coordinate subtype survive), and the column list handed to
+pyarrow by `read_parquet(columns=…)`.  Those two are modelled and proved here.  The byte-level encoding and decoding of the
+nested Arrow arrays is pyarrow's and is **not** modelled: for it the tie is the differential check alone (every kind × subtype ×
+missing/empty/sliced/concatenated arrays × index kinds × compression × partition counts), which is why C11 is claimed as
+`partial`.
+-/
 namespace SpVerif
 open Parquet Generated
+
 /-- every dtype name spatialpandas prints is parsed back to the same (kind, subtype), for every kind registered in
-the source tree (regenerated table) and every coordinate subtype -/
+the source tree (regenerated table) and every coordinate subtype — in particular no class registered earlier accepts the
+name of a later one (`line` versus `multiline`, …) -/
 theorem C11_dtype_name_roundtrip :
     ∀ k ∈ registeredKinds, ∀ s ∈ subtypes, parseDtype registeredKinds (printDtype k s) = some (k, s) := by decide +kernel
+
+/-- the bare kind name (no subtype) means float64 -/
+theorem C11_bare_name_is_float64 :
+    ∀ k ∈ registeredKinds, parseDtype registeredKinds k = some (k, "float64") := by decide +kernel
+
+/-- **`columns=`**: the columns read are the requested ones, in the requested order, preceded by exactly those index columns
+that are stored as columns and were not requested — nothing else, and nothing twice -/
+theorem C11_projection (indexCols allCols requested : List String) :
+    (∃ pre, project indexCols allCols requested = pre ++ requested ∧ ∀ c ∈ pre, c ∈ indexCols ∧ c ∈ allCols ∧ c ∉ requested) ∧
+    (∀ c ∈ indexCols, c ∈ allCols → c ∈ project indexCols allCols requested) ∧
+    (indexCols.Nodup → requested.Nodup → (project indexCols allCols requested).Nodup) := by
+  unfold project
+  refine ⟨⟨_, rfl, ?_⟩, ?_, ?_⟩
+  · intro c hc
+    simp only [List.mem_filter, Bool.and_eq_true, Bool.not_eq_true', List.contains_eq_mem, decide_eq_false_iff_not,
+      decide_eq_true_eq] at hc
+    exact ⟨hc.1, hc.2.2, hc.2.1⟩
+  · intro c hi ha
+    by_cases hr : c ∈ requested
+    · exact List.mem_append_right _ hr
+    · apply List.mem_append_left
+      simp only [List.mem_filter, Bool.and_eq_true, Bool.not_eq_true', List.contains_eq_mem, decide_eq_false_iff_not,
+        decide_eq_true_eq]
+      exact ⟨hi, hr, ha⟩
+  · intro h1 h2
+    rw [List.nodup_append]
+    refine ⟨h1.filter _, h2, ?_⟩
+    intro a ha b hb hab
+    subst hab
+    simp only [List.mem_filter, Bool.and_eq_true, Bool.not_eq_true', List.contains_eq_mem, decide_eq_false_iff_not] at ha
+    exact ha.2.1 hb
+
+/-- an index that is not stored as a column (a `RangeIndex`, kept in the metadata only) adds nothing to the request -/
+theorem C11_projection_range_index (allCols requested : List String) : project [] allCols requested = requested := by
+  simp [project]
+
+/-! non-vacuity -/
+example : project ["hilbert_distance"] ["hilbert_distance", "a", "geometry"] ["geometry", "a"] = ["hilbert_distance", "geometry", "a"] := by decide
+example : project ["idx"] ["idx", "a", "geometry"] ["a", "idx"] = ["a", "idx"] := by decide
+
 end SpVerif
